@@ -57,10 +57,12 @@ def cubeFaces (d k : Nat) (center : Pt) : List (List Pt) :=
   dedup (((maximal d).map (fun s => sortPts (s.map (fun n => padd center (cornerPt n))))).flatMap
     (subsLen k))
 
-/-- the non-zero corners of the `d`-cube: centres of the neighbouring cubes
-    that `join_complexes` unites -/
+/-- centres of the neighbouring cubes that `join_complexes` unites in
+    `EC3d`/`Lips3d` and `EC2d`/`Lips2d` — literals of intvol.pyx, regenerated from
+    its text (`Gen.C15.neighbours3/2`); the 1-d functions are plain loops: the
+    table form of the 1-d complex uses the one forward neighbour -/
 def neighbours (d : Nat) : List Pt :=
-  ((List.range (2 ^ d)).drop 1).map cornerPt
+  if d = 3 then Gen.C15.neighbours3 else if d = 2 then Gen.C15.neighbours2 else [(1, 0, 0)]
 
 /-- `c[k].difference(union[k])`: the `k`-vertex simplices of the cube at the
     origin that belong to no neighbouring cube — the per-voxel tables `d2`,
